@@ -61,7 +61,18 @@ def unc(t: str) -> str:
     return "" if t == "-" else "".join(chr(int(x)) for x in t.split(","))
 
 
+_BUILT = None
+
+
 def build_model():
+    """(ok, exe); built once per process (every build takes the shared Coq lock)."""
+    global _BUILT
+    if _BUILT is None or not _BUILT[0]:
+        _BUILT = _build_model()
+    return _BUILT
+
+
+def _build_model():
     gen = os.path.join(fw.COQ, "Generated", GENERATED[0])
     exe = os.path.join(fw.VERIF, "bin", "modelrun_C14")
     if not os.path.exists(gen) and os.path.exists(exe):
@@ -273,8 +284,31 @@ def literal_texts(ops):
     return out
 
 
+def text_requoted(t):
+    """fixed text that _requote_path changes, or that contains a percent-escape (decoded in path_safe)"""
+    from aiohttp.web_urldispatcher import _requote_path
+    try:
+        return "%" in t or _requote_path(t) != t
+    except ValueError:
+        return True
+
+
+def template_requoted(template):
+    return any(text_requoted(part) for part in _HOLE.sub("\0", template).split("\0"))
+
+
 def needs_quote(ops):
-    return any(_UNSAFE.search(t) for t in literal_texts(ops))
+    out = False
+    for o in ops:
+        if o[0] == "R":
+            out = out or template_requoted(o[2])
+        elif o[0] == "S":
+            out = out or text_requoted(o[1])
+        elif o[0] == "SUB":
+            out = out or text_requoted(o[1]) or needs_quote(o[2])
+        else:
+            out = out or needs_quote(o[2])
+    return out
 
 
 # --------------------------------------------------------------------------- implementation side
@@ -458,7 +492,7 @@ def sig_requoted_literal(case, params):
     if case.get("kind") not in ("url_for_inverse", "chain_inverse"):
         return False
     if "template" in case:
-        return bool(_UNSAFE.search(_HOLE.sub("", case["template"])))
+        return template_requoted(case["template"])
     return needs_quote(case.get("ops", []))
 
 
@@ -468,8 +502,20 @@ def _ambiguous(template):
 
 
 def sig_ambiguous_holes(case, params):
-    return (case.get("kind") == "url_for_inverse" and "template" in case and _ambiguous(case["template"])
-            and not _UNSAFE.search(_HOLE.sub("", case["template"])))
+    """The produced URL is genuinely ambiguous: it resolves to other values that produce the very same URL
+    (a hole is followed inside its segment by more text)."""
+    if not (case.get("kind") == "url_for_inverse" and "template" in case and _ambiguous(case["template"])
+            and not template_requoted(case["template"])):
+        return False
+    from aiohttp.web_urldispatcher import DynamicResource
+    from yarl import URL
+    try:
+        res = DynamicResource(case["template"])
+        u = res.url_for(**case["values"])
+        got = res._match(URL.build(path=URL(str(u)).raw_path, encoded=True).path_safe)
+        return got is not None and got != case["values"] and res.url_for(**got) == u
+    except Exception:  # noqa
+        return False
 
 
 def sig_subapp_capture(case, params):
@@ -879,7 +925,7 @@ def suite_middleware(ctx, exe, tmpdir):
     rng = ctx.rng
     ran = 0
     flagsets = [(True, False, True), (False, True, True), (True, False, False), (False, False, True), (False, True, False)]
-    for _ in range(100 if ctx.quick else 1500):
+    for _ in range(100 if ctx.quick else 600):
         ids = Ids()
         ops = [["R", "GET", t, ids.next()] for t in
                rng.sample(["/a", "/a/", "/a/b", "/a/b/", "/{x}", "/{x}/", "/{x}/b/", "/", "/b/{t:.*}", "/evil.com", "/evil.com/"], rng.randint(1, 4))]
@@ -967,7 +1013,17 @@ def replay(ctx, case):
         v0, k0, d0 = len(ctx.violations), sum(ctx.known_hits.values()), ctx.disagreements
         run_case(ctx, exe, tmpdir, case)
         viol = ctx.violations[v0:]
-        return {"violates": bool(viol) or sum(ctx.known_hits.values()) > k0,
+        obs = {}
+        if case.get("suite") == "resolve" and "path" in case:
+            impl, line, reqs = prepare_table(tmpdir, case["ops"], [(case.get("host"), case["path"])])
+            ans = fw.run_model(exe, [line])[0].split(" ; ")
+            if impl.err is None and ans[0] == "BUILD ok":
+                for i, m in enumerate(METHODS):
+                    ix, rule = parse_q(ans[1 + i])
+                    obs[m] = {"impl": list(reqs[0][2][m]), "model_index_walk": list(ix), "documented_rule": list(rule)}
+            else:
+                obs = {"build": {"impl": impl.err or "ok", "model": ans[0]}}
+        return {"observables": obs, "violates": bool(viol) or sum(ctx.known_hits.values()) > k0,
                 "new_violations": [v["what"] for v in viol],
                 "known_matched": dict(ctx.known_hits),
                 "model_disagreements": ctx.disagreements - d0,
